@@ -128,6 +128,21 @@ func invalidCorpus() []CorpusReq {
 	add("omission-unknown-ordering", b1("criteriaOmission", M{"ratio": 0.5, "ordering": "alphabetical"}))
 	add("reversal-ratio-above-one", b1("preferenceReversal", M{"ratio": 2.0}))
 	add("reversal-unknown-ordering", b1("preferenceReversal", M{"ratio": 0.5, "ordering": "alphabetical"}))
+	// the violated constraint next to every shape of its valid sibling options (bounds that coincide, bounds that already
+	// fix the count, bounds at the ends of their range, a non-default ordering)
+	for _, name := range []string{"criteriaOmission", "preferenceReversal"} {
+		for ri, ratio := range []float64{1.5, -0.5} {
+			for si, sib := range []M{{"min": 1, "max": 1}, {"min": 0, "max": 0}, {"min": 2, "max": 2}, {"min": 0, "max": 1}, {"max": 2}, {"min": 1}, {"ordering": "strongest", "min": 1, "max": 1}} {
+				p := M{"ratio": ratio}
+				for k, v := range sib {
+					p[k] = v
+				}
+				add(fmt.Sprintf("%s-ratio-out-of-range-%d-with-bounds-%d", name, ri, si), b1(name, p))
+			}
+		}
+		add(name+"-max-below-min-ratio-zero", b1(name, M{"ratio": 0.0, "min": 2, "max": 1}))
+		add(name+"-max-below-min-ratio-one", b1(name, M{"ratio": 1.0, "min": 3, "max": 2}))
+	}
 	add("mixing-ratio-above-one", b1("criteriaMixing", M{"mixingRatio": 1.5}))
 	add("mixing-ratio-negative", b1("criteriaMixing", M{"mixingRatio": -0.5}))
 	add("mixing-unknown-reference-type", b1("criteriaMixing", M{"referenceCriterionType": "strongest"}))
